@@ -44,15 +44,21 @@ func init() {
 			"outside the 304 branch and no stale-while-revalidate spawn is reachable from RoundTrip; the staleness flag tested with must-revalidate does not depend on max-stale; " +
 			"validators are copied from the stored header onto a clone whose header map is a copy; every unvalidated return under qualified no-cache passes the field stripper; " +
 			"in the validation handler a stored response is returned only under status==304 or the stale-if-error policy.",
-		NotDecided: "the numeric comparison of the age with a request max-age (only that the stale-while-revalidate branch is closed under it); textual value of validators; whether the origin answered truthfully.",
+		NotDecided:  "the numeric comparison of the age with a request max-age (only that the stale-while-revalidate branch is closed under it); textual value of validators; whether the origin answered truthfully.",
 		Assumptions: []string{"R-REQ, R-FRESH, R-PURE (checked in C02.0)", "one stored entry per exchange: rs.* atoms of different functions refer to the same stored response (checked: single entry read site)"},
 		Rules: []Rule{
-			{ID: "C02.0", Desc: "shared premises", Run: func(c *Ctx) { ruleRREQ(c, "C02.0"); ruleRFRESH(c, "C02.0"); ruleRPURE(c, "C02.0"); ruleOneEntry(c, "C02.0") }, MinSites: 4},
+			{ID: "C02.0", Desc: "shared premises", Run: func(c *Ctx) {
+				ruleRREQ(c, "C02.0")
+				ruleRFRESH(c, "C02.0")
+				ruleRPURE(c, "C02.0")
+				ruleOneEntry(c, "C02.0")
+			}, MinSites: 4},
 			{ID: "C02.1", Desc: "decision rows: no-cache / stale+must-revalidate / request no-cache forbid unvalidated reuse", Run: ruleC02_1, MinSites: 3},
 			{ID: "C02.2", Desc: "max-stale does not override must-revalidate / no-cache", Run: ruleC02_2, MinSites: 1},
 			{ID: "C02.3", Desc: "conditional request: validators copied onto a clone", Run: ruleC02_3, MinSites: 3},
 			{ID: "C02.4", Desc: "qualified no-cache fields stripped on every unvalidated return", Run: ruleC02_4, MinSites: 1},
 			{ID: "C02.5", Desc: "validation handler returns the stored response only for 304 (or stale-if-error)", Run: ruleC02_5, MinSites: 1},
+			{ID: "C02.7", Desc: "Cache-Control (request and stored response) is read through all of its field lines", Run: func(c *Ctx) { ruleRLIST(c, "C02.7", "Cache-Control") }, MinSites: 1},
 			{ID: "C02.6", Desc: "a positive request max-age caps the lifetime on every path", Run: func(c *Ctx) { ruleRequestMaxAgeCaps(c, "C02.6") }, MinSites: 1},
 		},
 	})
